@@ -1968,8 +1968,12 @@ class FileBuilder:
             FileBuilder._try_to_remove_file(filename)
         FileBuilder._remove_empty_dirs(list(dirs_to_remove))
 
-        FileBuilder._create_dirs(self._old_cache.created_dirs())
+        # Restore the files first. Otherwise, if a regular file was (externally)
+        # put in the place of one of the previous build's directories and we
+        # moved it away, recreating the directory would prevent us from
+        # restoring the file.
         self._backups.restore_all()
+        FileBuilder._create_dirs(self._old_cache.created_dirs())
         logger.info('Rolled back build operation')
 
     def _build(self, cache_filename, func, args, kwargs):
